@@ -74,7 +74,7 @@ func encodeXterm(key vaxis.Key, deckpam bool, decckm bool) string {
 			buf.WriteRune('\x1b')
 		}
 		if xtermMods&vaxis.ModCtrl != 0 {
-			if unicode.IsLower(key.Keycode) {
+			if key.Keycode >= 'a' && key.Keycode <= 'z' {
 				buf.WriteRune(key.Keycode - 0x60)
 				return buf.String()
 			}
@@ -97,7 +97,12 @@ func encodeXterm(key vaxis.Key, deckpam bool, decckm bool) string {
 				buf.WriteRune(0x7f)
 			case '9':
 			default:
-				buf.WriteRune(key.Keycode - 0x40)
+				if key.Keycode >= 0x40 && key.Keycode < 0x60 {
+					buf.WriteRune(key.Keycode - 0x40)
+				} else {
+					// no control code for this key: the key itself
+					buf.WriteRune(key.Keycode)
+				}
 			}
 			return buf.String()
 		}
